@@ -10,7 +10,8 @@ prefix and Y must be written the way that rule writes it (otherwise the item is 
 import re
 
 _ITEM = re.compile(r'"([^"]*)"')
-_SPLIT = re.compile(r'^(.*?)(\d+)$', re.S)
+# [0-9] and \Z on purpose: \d also matches non-ASCII decimal digits and $ also matches before a final newline
+_SPLIT = re.compile(r'^(.*?)([0-9]+)\Z', re.S)
 
 
 class Malformed(ValueError):
